@@ -984,6 +984,21 @@ def model_call(interp, st, term, argvals):
                     return None
                 return rv if res.endswith("and_then") else Some(rv)
         return None
+    if res in ("std::option::Option::unwrap_or", "std::option::Option::unwrap_or_default"):
+        if a and a[0][0] == "agg" and a[0][1] == OPTION:
+            if a[0][2] == 1:
+                return a[0][3][0]
+            if res.endswith("unwrap_or") and len(a) > 1:
+                return a[1]
+        return None
+    if res in ("std::option::Option::is_some", "std::option::Option::is_none"):
+        if a and a[0][0] == "ref":
+            v0 = deref_val(interp, interp._st, a[0])
+        else:
+            v0 = a[0] if a else TOP
+        if v0 and v0[0] == "agg" and v0[1] == OPTION:
+            return Bool((v0[2] == 1) == res.endswith("is_some"))
+        return None
     if res in ("std::option::Option::expect", "std::option::Option::unwrap"):
         if a and a[0][0] == "agg" and a[0][1] == OPTION:
             if a[0][2] == 1:
